@@ -69,14 +69,32 @@ use std::str::FromStr;
 #[macro_export]
 macro_rules! value_null {
   ($f:expr, $($a:tt)*) => {
-    Value::Null(Some(format!($f, $($a)*)))
+    Value::Null(Some($crate::values::limited_trace_message(format!($f, $($a)*))))
   };
   ($l:expr) => {
-    Value::Null(Some(format!("{}", $l)))
+    Value::Null(Some($crate::values::limited_trace_message(format!("{}", $l))))
   };
   () => {
     Value::Null(None)
   };
+}
+
+/// Maximum length (in bytes) of the trace message kept in a `null` value.
+const MAX_TRACE_MESSAGE_LENGTH: usize = 1024;
+
+/// Shortens a trace message to the maximum length. A trace message may quote values that
+/// contain `null` values with trace messages of their own (like `partial` in a loop),
+/// so without a limit the messages double with every level of quoting.
+pub fn limited_trace_message(mut message: String) -> String {
+  if message.len() > MAX_TRACE_MESSAGE_LENGTH {
+    let mut end = MAX_TRACE_MESSAGE_LENGTH;
+    while !message.is_char_boundary(end) {
+      end -= 1;
+    }
+    message.truncate(end);
+    message.push_str("...");
+  }
+  message
 }
 
 #[macro_export]
